@@ -439,7 +439,7 @@ class C07(PropertyCheck):
         "thorough": "every rectangular mesh shape 3..9 x 3..9 (real Mesh2DRectangular neighbour tables) under each of the 7 non-split schemes; rectangular_neighbors_from / Mesh2DRectangular.neighbors on every shape 2..18 x 2..18",
     }
     # loop ties (DESIGN §12): regenerated from the source on every run, tie theorems proved for all sizes
-    loop_tie_modules = ["LoopsReg", "LoopsSignals"]
+    loop_tie_modules = ["LoopsReg", "LoopsSignals", "LoopsReg2"]
     modelled_functions = [
         "autoarray/inversion/regularization/regularization_util.py:zeroth_regularization_matrix_from",
         "autoarray/inversion/regularization/regularization_util.py:constant_regularization_matrix_from",
